@@ -663,7 +663,34 @@ def unit_rac(eng=None, tier="quick", tree=None):
                 bad.append(dict(source=j["sources"][0], expected="refused: word data at an odd address", observed=[r["status"], r.get("code_hex")]))
         elif r["status"] != "ok" or r["code_hex"] != e.hex():
             bad.append(dict(source=j["sources"][0], expected=e.hex(), observed=[r["status"], r.get("code_hex"), [d[1] for d in r["diags"]][:2]]))
-    ob = dict(label="random-data-directive-sequences(top level and '.repeat' bodies, every address parity)==reference-emitter-or-refused", kind="rac", status="proved" if not bad else "failed", secs=0.0,
+    # strings: exactly the bytes of the text as written, in the selected charset - also for text that a Unicode normalisation, a case mapping or a
+    # "smart" editor would rewrite (combining sequences, compatibility characters); what the charset cannot hold is an error
+    texts = ["\u0438\u0306", "\u0435\u0308", "e\u0301", "\u212a", "\u212b", "\u037e", "\u00e9", "\u0439", "\ufb01", "\u1e9e", "\u0130", "A\u030a", "\u2126", "\u00b5", "\u03bc", "\uff21", "\u2460"]
+    sjobs, sexp = [], []
+    for cs in ("utf-8", "koi8-r", "latin-1", "cp866", "bk"):
+        for t in texts:
+            for d in (".ascii", ".asciz"):
+                sjobs.append({"kind": "asm", "sources": ['%s "%s"\n' % (d, t)], "charset": cs})
+                try:
+                    if cs == "bk":
+                        raise LookupError         # decided by C14's obligations; here only: no silent rewriting (an error, or the bytes of another charset never)
+                    sexp.append((t.encode(cs) + (b"\0" if d == ".asciz" else b"")).hex())
+                except UnicodeEncodeError:
+                    sexp.append(None)
+                except LookupError:
+                    sexp.append("bk")
+    sres = driver.native(sjobs, tree or driver.tree_root())
+    for j, e, r in zip(sjobs, sexp, sres):
+        if e == "bk":
+            if r["status"] == "ok" and not all(ord(c) < 0x7f or 0x410 <= ord(c) <= 0x44f for c in j["sources"][0].split('"')[1]):
+                bad.append(dict(source=j["sources"][0], charset="bk", expected="refused: outside the table", observed=[r["status"], r.get("code_hex")]))
+        elif e is None:
+            if r["status"] != "fail":
+                bad.append(dict(source=j["sources"][0], charset=j["charset"], expected="refused: the charset cannot hold this text", observed=[r["status"], r.get("code_hex")]))
+        elif r["status"] != "ok" or r["code_hex"] != e:
+            bad.append(dict(source=j["sources"][0], charset=j["charset"], expected=e, observed=[r["status"], r.get("code_hex")]))
+    jobs = jobs + sjobs
+    ob = dict(label="random-data-directive-sequences(top level and '.repeat' bodies, every address parity)==reference-emitter-or-refused;strings-are-the-bytes-of-the-text-as-written", kind="rac", status="proved" if not bad else "failed", secs=0.0,
               path=[], witness=None, detail=json.dumps(bad[:3])[:1500], events=[], smt2=None, backend="cpython-native", unit="data-rac", func="Compiler (run-time check)", cases=len(jobs), cfg=dict(kind="rac"))
     return dict(unit="data-rac", func="Compiler (run-time check)", paths=len(jobs), obligations=[ob], wall=0.0, bad=bad)
 
@@ -675,8 +702,14 @@ def unit_repeat(eng):
     return meta_c.unit_repeat(eng)
 
 
+def unit_text_identity(eng):
+    """a string reaches the data directive as it is written in the file: parser.parse hands the file's own text to the scanner (frame, contracts/c17.py)"""
+    from contracts import c17
+    return c17.unit_text_identity(eng)
+
+
 def units(tier):
-    us = [("rac", "unit_rac", dict(tier=tier)), ("repeat", "unit_repeat", {})]
+    us = [("rac", "unit_rac", dict(tier=tier)), ("repeat", "unit_repeat", {}), ("text-identity", "unit_text_identity", {})]
     for bit in [None, 3, 8, 16, 32, "sym"]:
         for uns in [False, True]:
             for d in [None, 0]:
